@@ -273,9 +273,13 @@ Record spanv := { s_off : Z; s_size : Z; s_ext : option Z }.   (* s_ext: Some n 
 Definition mk_span (ext : option Z) (ptr sz : Z) : spanv :=
   {| s_off := ptr; s_size := match ext with Some n => n | None => sz end; s_ext := ext |}.
 
-(* first<Count>() / last<Count>(): only the static_assert(Count <= Extent), no run-time check *)
-Definition sp_first_s (s : spanv) (c : Z) : spanv := mk_span (Some c) (s_off s) c.
-Definition sp_last_s (s : spanv) (c : Z) : spanv := mk_span (Some c) (s_off s + szw (s_size s - c)) c.
+(* first<Count>() / last<Count>(): static_assert(Count <= Extent) -- vacuous for a dynamic-extent span -- and
+   TETL_PRECONDITION(Count <= size()) (run-time check added by the fix commit of the C19 review; a span of static
+   extent has size() == Extent, so there the check can never fire) *)
+Definition sp_first_s (s : spanv) (c : Z) : res spanv :=
+  if c <=? s_size s then Ok (mk_span (Some c) (s_off s) c) else Contract.
+Definition sp_last_s (s : spanv) (c : Z) : res spanv :=
+  if c <=? s_size s then Ok (mk_span (Some c) (s_off s + szw (s_size s - c)) c) else Contract.
 (* first(count) / last(count): TETL_PRECONDITION(count <= size()) *)
 Definition sp_first_d (s : spanv) (c : Z) : res spanv :=
   if c <=? s_size s then Ok (mk_span None (s_off s) c) else Contract.
@@ -288,10 +292,17 @@ Definition subspan_extent (o : Z) (c ext : option Z) : option Z :=
   | Some n => Some n
   | None => match ext with Some x => Some (szw (x - o)) | None => None end
   end.
-(* subspan<Offset, Count>() *)
-Definition sp_sub_s (s : spanv) (o : Z) (c : option Z) : spanv :=
-  let sz := match c with None => szw (s_size s - o) | Some n => n end in
-  mk_span (subspan_extent o c (s_ext s)) (s_off s + o) sz.
+(* subspan<Offset, Count>(): the two static_asserts (vacuous for a dynamic-extent span) and the same two
+   TETL_PRECONDITIONs as the run-time form (added by the fix commit of the C19 review) *)
+Definition sp_sub_s (s : spanv) (o : Z) (c : option Z) : res spanv :=
+  if negb (o <=? s_size s) then Contract
+  else
+    let sz := match c with None => szw (s_size s - o) | Some n => n end in
+    let r := mk_span (subspan_extent o c (s_ext s)) (s_off s + o) sz in
+    match c with
+    | Some n => if n <=? szw (s_size s - o) then Ok r else Contract
+    | None => Ok r
+    end.
 (* subspan(offset, count = dynamic_extent): two preconditions *)
 Definition sp_sub_d (s : spanv) (o : Z) (c : option Z) : res spanv :=
   if negb (o <=? s_size s) then Contract
@@ -303,6 +314,12 @@ Definition sp_sub_d (s : spanv) (o : Z) (c : option Z) : res spanv :=
 (* operator[](idx): TETL_PRECONDITION(idx < size()), then data()[idx] *)
 Definition sp_index (s : spanv) (i : Z) : res Z :=
   if i <? s_size s then Ok (s_off s + i) else Contract.
+
+(* front() / back(): TETL_PRECONDITION(not empty()), then *begin() / *(end() - 1) *)
+Definition sp_front (s : spanv) : res Z :=
+  if s_size s =? 0 then Contract else Ok (s_off s).
+Definition sp_back (s : spanv) : res Z :=
+  if s_size s =? 0 then Contract else Ok (s_off s + s_size s - 1).
 
 (* size_bytes(): size() * sizeof(element_type), in size_t *)
 Definition sp_size_bytes (esz : Z) (s : spanv) : Z := szw (s_size s * esz).
